@@ -19,6 +19,7 @@ import SpsdkVerif.Proofs.AhabRom
 import SpsdkVerif.Proofs.AhabParse
 import SpsdkVerif.Proofs.AhabRom2
 import SpsdkVerif.Proofs.AhabRom3
+import SpsdkVerif.Proofs.AhabCert
 
 namespace SpsdkVerif.C06
 open SpsdkVerif SpsdkVerif.Misc SpsdkVerif.Ahab SpsdkVerif.AhabVerify
@@ -610,6 +611,80 @@ theorem parser_ignores_reserved (v : Ver) (length flags sw fuse n sbo r1 r2 : Na
   unfold decodeHeader
   rw [w, unpack_pack _ _ rest f1, unpack_pack _ _ rest f2]
   simp only [List.length_append, packInts_length _ _ f1, packInts_length _ _ f2]
+
+/-! ## 10. the certificate (chain of trust SRK -> certificate -> container) -/
+
+/-- the hand split of the certificate header used by the model (integers ‖ 12-byte permission data ‖ integers ‖ 16-byte UUID)
+    IS the struct format extracted from `AhabCertificate.format()`, with the pack arguments of `get_signature_data` in the
+    order the model writes them; tag / version as in the source -/
+theorem cert_layout_agrees :
+    AhabConsts.certificateLayout.fmt = "<BHBHBB12sBBH16s" ∧
+    AhabConsts.certificateLayout.intWidths = certIntsA ++ certIntsB ∧
+    AhabConsts.certificateLayout.strFields = [(6, certPermDataLen), (10, certUuidLen)] ∧
+    AhabConsts.certificateLayout.size = 40 ∧
+    AhabConsts.certificateLayout.packArgs = ["version", "length", "tag", "signature_offset", "~_permissions&255", "_permissions",
+      "extend_block(permission_data,PERMISSION_DATA_SIZE,padding=RESERVED)", "fuse_version", "RESERVED", "RESERVED",
+      "extend_block(_uuidorb'',UUID_SIZE,padding=RESERVED)"] ∧
+    AhabConsts.certificateTag = 0xAF ∧ AhabConsts.certificateVersion = 2 ∧
+    AhabConsts.certPermissionDataSize = certPermDataLen ∧ AhabConsts.certUuidSize = certUuidLen ∧
+    -- the verifier's range records of the certificate feed the attribute they name, 8 bits each
+    AhabConsts.recsCertificate = [⟨"Permissions", "_permissions", 0, 255, true⟩, ⟨"Fuse version", "fuse_version", 0, 255, true⟩] := by decide
+
+/-- WHAT the certificate signature covers: an exported certificate is `signed part ‖ signature container`; the signed part
+    (`get_signature_data`) is exactly the first `signature offset` bytes - header, public key record, key data - and the header
+    itself states that offset (bytes 4..5), the total length (bytes 1..2), the permissions (byte 7) and their complement -/
+theorem cert_signed_range (c : CryptoOps) (ct : Cert) (b : Bytes) (h : encodeCert c ct = .ok b) :
+    ∃ sd g, encodeCertSigned c ct = .ok sd ∧ encodeSignature ct.signature = .ok g ∧ b = sd ++ g ∧ b.take sd.length = sd ∧
+      Spec.AhabRom.rd b 4 2 = sd.length ∧ Spec.AhabRom.rd b 1 2 = b.length ∧
+      Spec.AhabRom.rd b 0 1 = AhabConsts.certificateVersion ∧ Spec.AhabRom.rd b 3 1 = AhabConsts.certificateTag ∧
+      Spec.AhabRom.rd b 7 1 = ct.perms ∧ Spec.AhabRom.rd b 6 1 = 255 - ct.perms % 256 :=
+  cert_signed_range' c ct b h
+
+/-- ... and it does not depend on the signature bytes (the signer signs a well defined message) -/
+theorem cert_signed_independent (c : CryptoOps) (ct : Cert) (sig' : Bytes) (hl : sig'.length = ct.signature.length) :
+    encodeCertSigned c { ct with signature := sig' } = encodeCertSigned c ct :=
+  certSigned_independent c ct sig' hl
+
+/-- `parse (export cert) = cert` for every certificate with one key and one signature (every permission byte, permission data
+    up to 12 and UUID up to 16 bytes - returned zero-extended, which is why SPSDK's own `==` fails: finding C06-cert-eq-padding -,
+    every key whose algorithm tags are in the version-2 enumerations, any trailing bytes) -/
+theorem cert_roundtrip (c : CryptoOps) (hc : CryptoLaws c) (ct : Cert) (b rest : Bytes) (hwf : CertWF ct)
+    (h : encodeCert c ct = .ok b) :
+    ∃ rec so, srkRecordOfV2 c ct.srkId ct.key = .ok rec ∧ b.length = so + signatureLen ct.signature ∧
+      so = 40 + 76 + (8 + ct.key.keyData.length) ∧
+      parseCert (b ++ rest) = some (expectedCert c ct rec b.length so) :=
+  cert_roundtrip' c hc ct b rest hwf h
+
+/-- the parser refuses a permission byte whose complement field does not match (the two fields cannot be changed independently) -/
+theorem cert_perm_complement_checked (b : Bytes) (p : PCert) (h : parseCert b = some p) :
+    ∃ inv perm, unpackInts certIntsA b = some [AhabConsts.certificateVersion, p.length, AhabConsts.certificateTag, p.sigOff, inv, perm] ∧
+      inv = 255 - perm % 256 ∧ p.perms = perm := by
+  unfold parseCert at h
+  split at h
+  · cases h
+  split at h
+  · rename_i ver len tag so inv perm fuse r1 r2 hu1 hu2
+    split at h
+    · cases h
+    rename_i hc1
+    split at h
+    · cases h
+    rename_i hc2
+    simp only [not_or, Decidable.not_not] at hc1
+    split at h
+    · cases h
+    rename_i rec hrec
+    unfold parseCertKey at h
+    split at h
+    · cases h
+    split at h
+    · cases h
+    split at h
+    · cases h
+    cases h
+    refine ⟨inv, perm, ?_, Decidable.not_not.1 hc2, rfl⟩
+    rw [hu1, hc1.1, hc1.2.1]
+  · cases h
 
 /-! ## non-vacuity and sanity checks (decidable instances of the hypotheses) -/
 
